@@ -148,6 +148,7 @@ class Stack(object):
 
     def __init__(self, sx, miu_c, miu_s, client_role, agf=True, mac='pump'):
         self.sx = sx
+        self.cfg = dict(LR_OPTIONS)
         self.S = coop.new_threaded(sx)
         self.S.MAX_WAITS = 100000
         self.saved = [(m, a, getattr(m, a)) for m, a in (
@@ -264,13 +265,16 @@ class Stack(object):
         self.saved.append((nfc.dep, 'os', nfc.dep.os))
         nfc.dep.os = _FixedOs
         air = Air(sx, tech='106A', max_faults=0, max_frames=20000)
+        # each device drops NFC-DEP frames longer than the LR it announced
+        air.enforce_lr = True
+        lri, lrt = self.cfg.get('lri', 3), self.cfg.get('lrt', 3)
         ini = nfc.dep.Initiator(IniClf(air))
         tgt = nfc.dep.Target(TgtClf(air))
         self.dep = dict(air=air, ini=ini, tgt=tgt, end=None)
         tside = self.order[1]
 
         def target_stack():
-            if tgt.activate(timeout=1.0, lrt=3, rwt=8,
+            if tgt.activate(timeout=1.0, lrt=lrt, rwt=8,
                             gbt=b"Ffm\x01\x01\x11") is None:
                 self.dep['end'] = "not-activated"
                 return
@@ -287,7 +291,7 @@ class Stack(object):
                 self.inbound(tside, req)
                 rsp = self.outbound(tside, symm=True)
         air.start_target(target_stack)
-        gb = ini.activate(None, brs=0, lri=3, acm=False,
+        gb = ini.activate(None, brs=0, lri=lri, acm=False,
                           gbi=b"Ffm\x01\x01\x11")
         if gb is None:
             sx.check(False, "stack:dep-activation-failed")
@@ -441,6 +445,8 @@ def pick_cfg(sx, cfgs):
 def snep_put(sx, cfgs, lens_options, limit):
     cfg = pick_cfg(sx, cfgs)
     lens = sx.pick("lens", lens_options)
+    LR_OPTIONS.clear()
+    LR_OPTIONS.update(lri=cfg.get('lri', 3), lrt=cfg.get('lrt', 3))
     st = Stack(sx, cfg['miu_c'], cfg['miu_s'], cfg['role'],
                mac=cfg.get('mac', 'pump'))
     try:
@@ -508,6 +514,8 @@ def snep_get(sx, cfgs, len_options, accept, repeat=1):
     """repeat > 1: that many GETs over one kept-open connection"""
     cfg = pick_cfg(sx, cfgs)
     nreq, nrsp = sx.pick("lens", len_options)
+    LR_OPTIONS.clear()
+    LR_OPTIONS.update(lri=cfg.get('lri', 3), lrt=cfg.get('lrt', 3))
     st = Stack(sx, cfg['miu_c'], cfg['miu_s'], cfg['role'],
                mac=cfg.get('mac', 'pump'))
     try:
@@ -574,6 +582,8 @@ def handover(sx, cfgs, options):
     """options: [[request pad, response pad], ...] per connection"""
     cfg = pick_cfg(sx, cfgs)
     pads = sx.pick("pads", options)
+    LR_OPTIONS.clear()
+    LR_OPTIONS.update(lri=cfg.get('lri', 3), lrt=cfg.get('lrt', 3))
     st = Stack(sx, cfg['miu_c'], cfg['miu_s'], cfg['role'],
                mac=cfg.get('mac', 'pump'))
     try:
@@ -624,12 +634,15 @@ def _handover(sx, st, cfg, pads):
                 i_c=st.ipdus['c'], i_s=st.ipdus['s'], cycles=st.cycles)
 
 
+LR_OPTIONS = {}        # lri / lrt of the mac=dep activation (set from the cfg)
+
+
 # ----------------------------------------------------------------------------
 def cfg(miu_c=128, miu_s=128, rw=15, srv_miu=1984, role='ini', lagger=None,
-        lag=0, cli_miu=248, cli_rw=2, sd=0, mac='pump'):
+        lag=0, cli_miu=248, cli_rw=2, sd=0, mac='pump', lri=3, lrt=3):
     return dict(miu_c=miu_c, miu_s=miu_s, rw=rw, srv_miu=srv_miu, role=role,
                 lagger=lagger, lag=lag, cli_miu=cli_miu, cli_rw=cli_rw, sd=sd,
-                mac=mac)
+                mac=mac, lri=lri, lrt=lrt)
 
 
 def with_sd(cfgs):
@@ -742,6 +755,10 @@ def partitions(tier):
             [5, e - 7, e - 6, e - 5, 2 * e + 40, 4 * e]
         add("snep_put", "dep:%d" % m, cfgs=cfgs,
             lens_options=[[n] for n in ns], limit=None)
+    # ... with differing length reduction values (LR 254 one way, 128 the other)
+    cfgs = [cfg(miu_c=248, miu_s=248, rw=2, role=r, mac='dep', lri=a, lrt=b)
+            for r in roles for a, b in ((3, 1), (1, 3))]
+    add("snep_put", "dep:lr", cfgs=cfgs, lens_options=[[242], [500]], limit=None)
     cfgs = [cfg(miu_c=2175, miu_s=2175, rw=2, srv_miu=1984, cli_miu=2175,
                 cli_rw=2, role=r, lagger=lg, lag=n, mac='dep')
             for r in roles for lg, n in (lags[:1] + lags[2:3])]
